@@ -118,7 +118,7 @@ func panics(f func()) (p bool) {
 }
 
 type holder[T any] struct {
-	Pad int               `json:"pad"`
+	Pad int                `json:"pad"`
 	B   queueing.Buffer[T] `json:"b"`
 }
 
